@@ -1,0 +1,232 @@
+//go:build verif
+
+package stackage
+
+/*
+verif_on.go is only compiled with the `verif` build tag. It offers
+two read-only observation hooks for external verification harnesses:
+
+  - VerifHook / verifPoint: lock life-cycle events of a *stack
+  - VerifDump: the raw configuration record and slots of an instance
+
+Nothing in this file alters the behaviour of the package.
+*/
+
+import (
+	"reflect"
+	"unsafe"
+)
+
+/*
+VerifHook, when non-nil, receives every lock life-cycle event
+("lock.want", "lock.held", "lock.released") together with the address
+of the *stack instance concerned.
+*/
+var VerifHook func(event string, id uintptr)
+
+func verifPoint(event string, r *stack) {
+	if h := VerifHook; h != nil {
+		h(event, uintptr(unsafe.Pointer(r)))
+	}
+}
+
+func verifFuncID(fn any) []uintptr {
+	v := reflect.ValueOf(fn)
+	if !v.IsValid() || v.Kind() != reflect.Func || v.IsNil() {
+		return nil
+	}
+	// code pointer, plus the address of the closure object
+	p := v.Pointer()
+	var clo uintptr
+	if v.CanAddr() {
+		clo = *(*uintptr)(unsafe.Pointer(v.UnsafeAddr()))
+	} else {
+		cp := reflect.New(v.Type())
+		cp.Elem().Set(v)
+		clo = *(*uintptr)(unsafe.Pointer(cp.Pointer()))
+	}
+	return []uintptr{p, clo}
+}
+
+func verifDumpConfig(c *nodeConfig) map[string]any {
+	if c == nil {
+		return nil
+	}
+	m := map[string]any{
+		`ptr`: uintptr(unsafe.Pointer(c)),
+		`id`:  c.id,
+		`cat`: c.cat,
+		`cap`: c.cap,
+		`opt`: uint16(c.opt),
+		`typ`: uint8(c.typ),
+		`sym`: c.sym,
+		`ljc`: c.ljc,
+		`ord`: c.ord,
+		`mtx`: c.mtx != nil,
+		`ldr`: c.ldr != nil,
+		`evl`: verifFuncID(c.evl),
+		`ppf`: verifFuncID(c.ppf),
+		`vpf`: verifFuncID(c.vpf),
+		`rpf`: verifFuncID(c.rpf),
+		`eqf`: verifFuncID(c.eqf),
+		`lss`: verifFuncID(c.lss),
+		`umf`: verifFuncID(c.umf),
+		`maf`: verifFuncID(c.maf),
+		`mfn`: verifFuncID(c.mfn),
+	}
+	if c.err != nil {
+		m[`err`] = c.err.Error()
+	} else {
+		m[`err`] = nil
+	}
+	if c.mtx != nil {
+		m[`mtxptr`] = uintptr(unsafe.Pointer(c.mtx))
+	}
+	var enc [][]string
+	for _, e := range c.enc {
+		enc = append(enc, append([]string{}, e...))
+	}
+	m[`enc`] = enc
+	m[`enc_nil`] = c.enc == nil
+	if c.log != nil {
+		m[`log`] = map[string]any{
+			`ptr`:    uintptr(unsafe.Pointer(c.log)),
+			`lvl`:    uint16(c.log.lvl),
+			`logger`: uintptr(unsafe.Pointer(c.log.log)),
+		}
+	}
+	if c.aux != nil {
+		keys := map[string]any{}
+		for k, v := range c.aux {
+			keys[k] = sprintf("%T:%v", v, v)
+		}
+		m[`aux`] = map[string]any{
+			`ptr`:  reflect.ValueOf(c.aux).Pointer(),
+			`keys`: keys,
+		}
+	}
+	return m
+}
+
+func verifNative(x any) (s *stack, c *condition) {
+	if x == nil {
+		return
+	}
+	switch tv := x.(type) {
+	case Stack:
+		return tv.stack, nil
+	case Condition:
+		return nil, tv.condition
+	case *stack:
+		return tv, nil
+	case *condition:
+		return nil, tv
+	}
+	v := reflect.ValueOf(x)
+	for v.Kind() == reflect.Ptr {
+		if v.IsNil() {
+			return
+		}
+		v = v.Elem()
+	}
+	if st := reflect.TypeOf(Stack{}); v.Type().ConvertibleTo(st) && v.Kind() == reflect.Struct {
+		if X, ok := v.Convert(st).Interface().(Stack); ok {
+			s = X.stack
+		}
+	} else if ct := reflect.TypeOf(Condition{}); v.Type().ConvertibleTo(ct) && v.Kind() == reflect.Struct {
+		if X, ok := v.Convert(ct).Interface().(Condition); ok {
+			c = X.condition
+		}
+	}
+	return
+}
+
+func verifDumpValue(x any, seen map[uintptr]bool) any {
+	if x == nil {
+		return nil
+	}
+	if cfg, ok := x.(*nodeConfig); ok {
+		return map[string]any{`kind`: `config`, `cfg`: verifDumpConfig(cfg)}
+	}
+	if s, c := verifNative(x); s != nil {
+		return verifDumpStack(s, sprintf("%T", x), seen)
+	} else if c != nil {
+		return verifDumpCondition(c, sprintf("%T", x), seen)
+	}
+	v := reflect.ValueOf(x)
+	m := map[string]any{`kind`: `value`, `type`: sprintf("%T", x)}
+	switch v.Kind() {
+	case reflect.Ptr, reflect.Map, reflect.Chan, reflect.Func, reflect.UnsafePointer, reflect.Slice:
+		m[`ptr`] = v.Pointer()
+		if v.Kind() == reflect.Slice || v.Kind() == reflect.Map {
+			m[`len`] = v.Len()
+		}
+		if v.Kind() == reflect.Ptr && !v.IsNil() {
+			e := v.Elem()
+			for e.Kind() == reflect.Ptr && !e.IsNil() {
+				e = e.Elem()
+			}
+			if e.CanInterface() {
+				m[`val`] = sprintf("%#v", e.Interface())
+			}
+		}
+	default:
+		m[`val`] = sprintf("%#v", x)
+	}
+	return m
+}
+
+func verifDumpStack(s *stack, typ string, seen map[uintptr]bool) map[string]any {
+	p := uintptr(unsafe.Pointer(s))
+	m := map[string]any{`kind`: `stack`, `type`: typ, `ptr`: p}
+	if seen[p] {
+		m[`cycle`] = true
+		return m
+	}
+	seen[p] = true
+	defer delete(seen, p)
+
+	m[`len`] = len(*s)
+	var slots []any
+	for i := 0; i < len(*s); i++ {
+		slots = append(slots, verifDumpValue((*s)[i], seen))
+	}
+	m[`slots`] = slots
+	return m
+}
+
+func verifDumpCondition(c *condition, typ string, seen map[uintptr]bool) map[string]any {
+	p := uintptr(unsafe.Pointer(c))
+	m := map[string]any{`kind`: `condition`, `type`: typ, `ptr`: p}
+	if seen[p] {
+		m[`cycle`] = true
+		return m
+	}
+	seen[p] = true
+	defer delete(seen, p)
+
+	m[`cfg`] = verifDumpConfig(c.cfg)
+	m[`kw`] = c.kw
+	if c.op != nil {
+		m[`op`] = sprintf("%T:%#v", c.op, c.op)
+	} else {
+		m[`op`] = nil
+	}
+	m[`ex`] = verifDumpValue(c.ex, seen)
+	return m
+}
+
+/*
+VerifDump returns the raw configuration record and the slot vector of
+the given Stack / Condition (or type alias, or pointer thereto), and,
+recursively, of every nested Stack and Condition. For any other value
+a short description of the value is returned. It only reads; it takes
+no lock and calls no user-supplied closure.
+*/
+func VerifDump(x any) map[string]any {
+	seen := map[uintptr]bool{}
+	if r, ok := verifDumpValue(x, seen).(map[string]any); ok {
+		return r
+	}
+	return nil
+}
